@@ -44,3 +44,51 @@ decreasing_by
   omega
 
 end C06
+
+namespace C06
+open Tak Tak.PN Spec.Game
+variable {S M : Type} (G : Game S M) (att : Color)
+
+theorem TreeOK_iff (dl : Bool) (h : List S) (s : S) (n : Node M) :
+    TreeOK G att dl h s n ↔
+      (NumOK G att dl h s n ∧
+       (∀ c ∈ n.children, ∃ s', ChildOf G s n c s' ∧ TreeOK G att dl (s :: h) s' c) ∧
+       (n.expanded = true → Cover G s n.children ∨ (n.children = [] ∧ (n.phi = 0 ∨ n.delta = 0))) ∧
+       (n.expanded = false → n.children = [])) := by
+  rw [TreeOK]
+
+theorem NumOK.mono {dl : Bool} {h : List S} {s : S} {n : Node M} (dl' : Bool)
+    (k : NumOK G att dl h s n) : NumOK G att (dl || dl') h s n where
+  proof := k.proof
+  disproof := by
+    intro hd; simp only [Bool.or_eq_false_iff] at hd; exact k.disproof hd.1
+  valueP := k.valueP
+  valueD := by
+    intro hd; simp only [Bool.or_eq_false_iff] at hd; exact k.valueD hd.1
+  valueU := k.valueU
+  side := k.side
+  notBoth := k.notBoth
+  live := k.live
+
+/-- once the depth limit has cut the tree, fewer claims are made: the invariant survives -/
+theorem TreeOK.mono (dl' : Bool) : ∀ (n : Node M) (dl : Bool) (h : List S) (s : S),
+    TreeOK G att dl h s n → TreeOK G att (dl || dl') h s n := by
+  intro n
+  induction hn : sizeOf n using Nat.strongRecOn generalizing n with
+  | _ k ih =>
+    intro dl h s t
+    rw [TreeOK_iff] at t ⊢
+    obtain ⟨t1, t2, t3, t4⟩ := t
+    refine ⟨t1.mono G att dl', ?_, t3, t4⟩
+    intro c hc
+    obtain ⟨s', hco, hct⟩ := t2 c hc
+    refine ⟨s', hco, ?_⟩
+    have hlt : sizeOf c < k := by
+      have := List.sizeOf_lt_of_mem hc
+      subst hn
+      cases n
+      simp only [Node.mk.sizeOf_spec] at *
+      omega
+    exact ih (sizeOf c) hlt c rfl dl (s :: h) s' hct
+
+end C06
